@@ -189,7 +189,9 @@ func (db *DB) calculateStartOffset(
 			if err != nil {
 				return 0, 0, err
 			}
-			ts = approxStamp.Lower + 1
+			// The stamp is taken from an inexact reference, so the sample at
+			// sampleOffset-1 (the last one kept) is its upper bound.
+			ts = approxStamp.Upper + 1
 		} else {
 			approxStamp, err = db.index().Stamp(
 				ctx,
